@@ -249,6 +249,37 @@ func runC17(h *H) {
 			}
 			ts.Close()
 		}
+		// a Unix domain socket is an unencrypted transport like TCP: the same rules apply, with and
+		// without a TLS configuration
+		for _, withTLS := range []bool{false, true} {
+			o := srvOpts{InsecureAuth: insecure, Unix: true}
+			if withTLS {
+				o.TLSConfig = testTLSConfig
+			}
+			ts := startServer(o)
+			for _, lineA := range []string{"LOGIN user pass", "AUTHENTICATE PLAIN AHVzZXIAcGFzcw=="} {
+				rc := ts.dial()
+				g, _ := rc.greeting()
+				stub := ts.lastSession()
+				_, tagged, _ := rc.cmd(lineA)
+				desc := map[string]interface{}{"insecure": insecure, "tls_config": withTLS, "transport": "unix", "line": lineA}
+				if (respClass(tagged) == "OK") != insecure {
+					h.Fail("plaintext-login", fmt.Sprintf("%s on a plaintext Unix socket with InsecureAuth=%v answered %q", lineA, insecure, tagged), desc)
+				}
+				if !insecure {
+					for _, k := range stub.Calls() {
+						h.Fail("creds-without-tls:"+k.Name, fmt.Sprintf("backend call %s %v over a plaintext Unix socket without InsecureAuth", k.Name, k.Args), desc)
+					}
+					if !strings.Contains(g, "LOGINDISABLED") || strings.Contains(g, "AUTH=") {
+						h.Fail("auth-advertised-plaintext", fmt.Sprintf("greeting on a plaintext Unix socket without InsecureAuth: %q", g), desc)
+					}
+				}
+				rc.Close()
+				h.Eval(fmt.Sprintf("unix|%v|%v|%s", insecure, withTLS, lineA))
+				h.Hist("server_unix_socket")
+			}
+			ts.Close()
+		}
 		// the same with a backend that brings its own SASL mechanisms (SessionSASL): AUTHENTICATE
 		// on the unencrypted connection must be refused before the backend sees the credentials
 		{
